@@ -20,7 +20,7 @@
 From Coq Require Import PeanoNat List.
 From mathcomp Require Import all_ssreflect all_algebra.
 From EasyML Require Import Base.Sx Model.Num Model.LinAlg Model.Decomp
-     Proofs.C07P1 Proofs.C08P1 Proofs.C08P2 Proofs.C08P3 Proofs.C08P5 Proofs.C08P4.
+     Proofs.C07P1 Proofs.C08P1 Proofs.C08P2 Proofs.C08P3 Proofs.C08P5 Proofs.C08P4 Proofs.C08P6.
 Import GRing.Theory Num.Theory.
 Local Open Scope ring_scope.
 
@@ -42,6 +42,15 @@ Theorem C08_cholesky_rejects_first_pivot : forall (R : Type) (ops : numops R)
   ordered_sqrt_field ops lt -> (1 <= mrows a)%coq_nat -> ~ lt (nzero ops) (mget ops a 0 0) ->
   cholesky ops a = None.
 Proof. exact @cholesky_first_pivot. Qed.
+
+(* over any real closed field with sqrt = Num.sqrt (posdef B: 0 < x^T B x for every x <> 0): a
+   symmetric input with a present result is positive definite, i.e. a symmetric input that is not
+   positive definite is rejected — a wrong factor is impossible *)
+Theorem C08_cholesky_rejects_not_posdef : forall (F : rcfType) (a : list (list F)),
+  C08P1.symmetric (rops (@Num.sqrt F)) a (mrows a) ->
+  ~ posdef (mxo (@Num.sqrt F) (mrows a) (mrows a) a) ->
+  cholesky (rops (@Num.sqrt F)) a = None.
+Proof. exact @cholesky_rejects_not_posdef. Qed.
 
 (* FULL STATEMENT NOT PROVED (C08_cholesky_complete): for every symmetric positive definite a,
    exists L, cholesky ops a = Some L.
@@ -152,6 +161,7 @@ Qed.
 Print Assumptions C08_cholesky_sound.
 Print Assumptions C08_cholesky_rejects.
 Print Assumptions C08_cholesky_rejects_first_pivot.
+Print Assumptions C08_cholesky_rejects_not_posdef.
 Print Assumptions C08_cholesky_complete_partial.
 Print Assumptions C08_ldlt_sound.
 Print Assumptions C08_ldlt_rejects.
